@@ -409,6 +409,7 @@ FAULT_CONFIGS = [
     ('f_vec_ntr_std', C.vec(0, 'ntr', 'u32', 'std')), ('f_vec_tr_re', C.vec(0, 'tr', 'u32', 're')), ('f_vec_tr_amc', C.vec(0, 'tr', 'u32', 'amc')),
     ('f_sv4_ntr_std', C.vec(4, 'ntr', 'u32', 'std')), ('f_sv4_tr_re', C.vec(4, 'tr', 'u32', 're')), ('f_sv2_ntr_amc', C.vec(2, 'ntr', 'u16', 'amc')),
     ('f_sv8_tr_u8_std', C.vec(8, 'tr', 'u8', 'std')), ('f_fcv12_ntr', C.fcv(12, 'ntr')), ('f_fcv12_tr', C.fcv(12, 'tr')),
+    ('f_vec_co_std', C.vec(0, 'co', 'u32', 'std')), ('f_sv4_co_amc', C.vec(4, 'co', 'u32', 'amc')), ('f_fcv12_co', C.fcv(12, 'co')),
 ]
 
 
@@ -423,7 +424,8 @@ def fault_unit(name, std='17'):
 FAULT_MULTISTD = [('f_vec_ntr_std', '11'), ('f_sv4_ntr_std', '14'), ('f_fcv12_ntr', '14'), ('f_sv4_tr_re', '20')]
 
 
-FAULT_RULE = ('scenario = (operation, initial size, position, count, range source, spare/tight capacity, inline/heap); a dry run counts the fault points '
+FAULT_RULE = ('12 configurations: vector / SmallVector / FixedCapacityVector x element {TR, NTR (noexcept moves, throwing copies), CO (copy-only: every move is a '
+              'copy that can throw; basic guarantee only)}; scenario = (operation, initial size, position, count, range source, spare/tight capacity, inline/heap); a dry run counts the fault points '
               'P (element value/default/copy constructions, copy assignments, allocator requests) inside the call, then the scenario is rebuilt and re-run '
               'P times with the k-th point throwing; evaluations = scenarios, fault_pairs = (scenario,k) runs; non-trivial = scenario in which '
               'a throw happens after the operation already moved/constructed something; distinct = distinct (op,size,pos,count,kind,capacity,storage,P)')
